@@ -119,6 +119,9 @@ def family():
 def run(ctx) -> Report:
     rep = Report("C16")
     prog = ctx.prog
+    # the memo-key clause first: it needs no interpretation, and what it finds is reported even if a later clause cannot follow the code
+    from ..memokey import check_memo_keys, memo_rule  # noqa: F401
+    memo_rule(ctx, rep, "C16-key", ['ufl.algorithms.formtransformations'])
     ctx.crosscheck_dispatch({"PartExtracter"})
     fn = prog.get_function(MOD, "compute_form_with_arity")
     pcls = prog.get_class(f"{MOD}.PartExtracter")
@@ -176,5 +179,4 @@ def run(ctx) -> Report:
     rep.assumptions = ["forms whose terms depend on different argument sets of equal size are rejected by PartExtracter (not in the family)", "mixed-function-space block paths (extract_blocks) are covered by C22 only"]
     from ..memokey import memo_rule
 
-    memo_rule(ctx, rep, "C16-key", ['ufl.algorithms.formtransformations'])
     return rep
